@@ -1,5 +1,5 @@
 (* C06_order: QueryResults.in_document_order lists tag results sorted by document position. *)
-From Coq Require Import Lia.
+From Coq Require Import Lia Sorted.
 From Delb.Base Require Import PyStr.
 From Delb.Tree Require Import ATree ITree.
 From Delb.XPath Require Import Ast Nav Eval EvalRef.
@@ -70,14 +70,172 @@ Proof.
     intro p. rewrite P, insert_sorted_paths. cbn. intuition.
 Qed.
 
+(* ================================================================ the trie of _NodesSorter = sorted insertion *)
+Lemma path_ltb_app pre a b : path_ltb (pre ++ a) (pre ++ b) = path_ltb a b.
+Proof. induction pre as [|x pre IH]; [reflexivity|]. cbn [app path_ltb]. rewrite Nat.ltb_irrefl, Nat.eqb_refl. exact IH. Qed.
+Lemma path_eqb_app pre a b : path_eqb (pre ++ a) (pre ++ b) = path_eqb a b.
+Proof. induction pre as [|x pre IH]; [reflexivity|]. cbn [app path_eqb]. rewrite Nat.eqb_refl. exact IH. Qed.
+Lemma path_ltb_irrefl p : path_ltb p p = false.
+Proof. induction p as [|x p IH]; [reflexivity|]. cbn [path_ltb]. rewrite Nat.ltb_irrefl, Nat.eqb_refl. exact IH. Qed.
+Lemma path_ltb_asym a : forall b, path_ltb a b = true -> path_ltb b a = false /\ path_eqb b a = false.
+Proof.
+  induction a as [|x a IH]; intros [|y b]; cbn [path_ltb path_eqb]; intro H; try discriminate; auto.
+  apply orb_prop in H as [H|H].
+  - apply Nat.ltb_lt in H. split.
+    + apply orb_false_intro; [apply Nat.ltb_ge; lia|]. destruct (Nat.eqb_spec y x); [lia|reflexivity].
+    + destruct (Nat.eqb_spec y x); [lia|reflexivity].
+  - apply andb_prop in H as [E H]. apply Nat.eqb_eq in E. subst. destruct (IH b H) as [H1 H2].
+    rewrite Nat.ltb_irrefl, Nat.eqb_refl, H1, H2. auto.
+Qed.
+
+(* the members of a trie below the position `pre`, keys strictly ascending *)
+Inductive twf : npath -> strie -> Prop :=
+| twf_intro pre x items :
+    (forall n, x = Some n -> fst n = pre) ->
+    StronglySorted lt (map fst items) ->
+    (forall k sub, In (k, sub) items -> twf (pre ++ [k]) sub) ->
+    twf pre (STrie x items).
+
+Lemma emit_prefix : forall t pre, twf pre t -> forall y, In y (strie_emit t) -> exists q, fst y = pre ++ q.
+Proof.
+  fix IH 3. intros t pre H y Hy. destruct H as [pre x items Hx Hs Hsub]. cbn in Hy. apply in_app_or in Hy as [Hy|Hy].
+  - destruct x as [n|]; [|contradiction]. destruct Hy as [<-|[]]. exists []. rewrite app_nil_r. apply Hx. reflexivity.
+  - apply in_flat_map in Hy as ([k sub] & Hin & Hy). cbn in Hy.
+    destruct (IH sub (pre ++ [k]) (Hsub k sub Hin) y Hy) as (q & Hq). exists (k :: q). rewrite Hq, <- app_assoc. reflexivity.
+Qed.
+
+Lemma insert_lt_all n l : (forall y, In y l -> path_ltb (fst n) (fst y) = true) -> insert_sorted n l = n :: l.
+Proof. destruct l as [|y l]; intro H; [reflexivity|]. cbn. rewrite (H y (or_introl eq_refl)). reflexivity. Qed.
+Lemma insert_app_gt n : forall l tail, (forall y, In y tail -> path_ltb (fst n) (fst y) = true) ->
+  insert_sorted n (l ++ tail) = insert_sorted n l ++ tail.
+Proof.
+  induction l as [|x l IH]; intros tail H; [apply insert_lt_all; exact H|]. cbn.
+  destruct (path_ltb (fst n) (fst x)); [reflexivity|]. destruct (path_eqb (fst n) (fst x)); [reflexivity|].
+  cbn. f_equal. apply IH. exact H.
+Qed.
+Lemma insert_app_lt n : forall l tail, (forall y, In y l -> path_ltb (fst y) (fst n) = true) ->
+  insert_sorted n (l ++ tail) = l ++ insert_sorted n tail.
+Proof.
+  induction l as [|x l IH]; intros tail H; [reflexivity|]. cbn.
+  destruct (path_ltb_asym _ _ (H x (or_introl eq_refl))) as [H1 H2]. rewrite H1, H2. f_equal.
+  apply IH. intros; apply H; right; assumption.
+Qed.
+
+Lemma emit_add_empty : forall p n, strie_emit (strie_add p n (STrie None [])) = [n].
+Proof. induction p as [|k p IH]; intro n; cbn; [reflexivity|]. rewrite IH. reflexivity. Qed.
+Lemma twf_add_empty : forall p pre n, fst n = pre ++ p -> twf pre (strie_add p n (STrie None [])).
+Proof.
+  induction p as [|k p IH]; intros pre n H; cbn.
+  - constructor; [intros ? E; inversion E; subst; rewrite H, app_nil_r; reflexivity|constructor|intros ? ? []].
+  - constructor; [discriminate|repeat constructor|].
+    intros k' sub [E|[]]. inversion E; subst. apply IH. rewrite H, <- app_assoc. reflexivity.
+Qed.
+
+(* comparing a member below key k' with one that belongs below key k *)
+Lemma key_cmp pre k rest k' q :
+  path_ltb (pre ++ k :: rest) (pre ++ k' :: q) = Nat.ltb k k' || (Nat.eqb k k' && path_ltb rest q).
+Proof. rewrite path_ltb_app. reflexivity. Qed.
+
+Lemma lt_keys (n y : nd) pre k rest k' q :
+  fst n = pre ++ k :: rest -> fst y = pre ++ k' :: q -> k < k' -> path_ltb (fst n) (fst y) = true.
+Proof. intros H1 H2 H. rewrite H1, H2, key_cmp. apply Nat.ltb_lt in H. rewrite H. reflexivity. Qed.
+Lemma lt_prefix (n y : nd) pre k q : fst n = pre -> fst y = pre ++ k :: q -> path_ltb (fst n) (fst y) = true.
+Proof. intros H1 H2. rewrite H1, H2. rewrite <- (app_nil_r pre) at 1. rewrite path_ltb_app. reflexivity. Qed.
+
+Lemma add_emit : forall p pre t n, twf pre t -> fst n = pre ++ p ->
+  strie_emit (strie_add p n t) = insert_sorted n (strie_emit t) /\ twf pre (strie_add p n t).
+Proof.
+  induction p as [|k rest IH]; intros pre [x items] n Hw Hn; inversion Hw as [? ? ? Hx Hs Hsub]; subst.
+  - (* the member belongs to this very trie node *)
+    rewrite app_nil_r in Hn. cbn [strie_add strie_emit]. split.
+    + assert (Hall : forall y, In y (flat_map (fun kv => strie_emit (snd kv)) items) -> path_ltb (fst n) (fst y) = true).
+      { intros y Hy. apply in_flat_map in Hy as ([k sub] & Hin & Hy). cbn in Hy.
+        destruct (emit_prefix sub _ (Hsub k sub Hin) y Hy) as (q & Hq). rewrite <- app_assoc in Hq.
+        eapply lt_prefix; eauto. }
+      destruct x as [n0|]; cbn.
+      * match goal with |- context [if path_ltb ?a ?b then _ else _] =>
+          assert (A : path_ltb a b = false) by
+            (transitivity (path_ltb pre pre); [f_equal; [exact Hn|exact (Hx n0 eq_refl)]|apply path_ltb_irrefl]);
+          assert (B : path_eqb a b = true) by
+            (transitivity (path_eqb pre pre); [f_equal; [exact Hn|exact (Hx n0 eq_refl)]|apply path_eqb_refl]);
+          rewrite A, B end. reflexivity.
+      * symmetry. apply insert_lt_all. exact Hall.
+    + constructor; [intros n' E; injection E as <-; exact Hn|exact Hs|exact Hsub].
+  - (* below key k *)
+    cbn [strie_add]. set (go := fix go (l : list (nat * strie)) : list (nat * strie) := _).
+    assert (Hgo : forall items, StronglySorted lt (map fst items) -> (forall k' sub, In (k', sub) items -> twf (pre ++ [k']) sub) ->
+              flat_map (fun kv => strie_emit (snd kv)) (go items) = insert_sorted n (flat_map (fun kv => strie_emit (snd kv)) items) /\
+              StronglySorted lt (map fst (go items)) /\ (forall k' sub, In (k', sub) (go items) -> twf (pre ++ [k']) sub) /\
+              (forall lo, Forall (lt lo) (map fst items) -> lo < k -> Forall (lt lo) (map fst (go items)))).
+    { clear Hs Hsub Hw Hx x items. induction items as [|[k' sub] r IHr]; intros Hs Hsub.
+      - cbn. rewrite emit_add_empty. repeat split; [repeat constructor| |intros lo _ Hlo; repeat constructor; exact Hlo].
+        intros k' sub [E|[]]. inversion E; subst. apply twf_add_empty. rewrite Hn, <- app_assoc. reflexivity.
+      - cbn [map fst] in Hs. inversion Hs as [|? ? Hs' Hlt]; subst.
+        assert (Hsub' : forall k'' s, In (k'', s) r -> twf (pre ++ [k'']) s) by (intros; apply Hsub; right; assumption).
+        assert (Hr_gt : forall y, In y (flat_map (fun kv => strie_emit (snd kv)) r) -> exists k'' q, k' < k'' /\ fst y = pre ++ k'' :: q).
+        { intros y Hy. apply in_flat_map in Hy as ([k'' s] & Hin & Hy). cbn in Hy.
+          destruct (emit_prefix s _ (Hsub' k'' s Hin) y Hy) as (q & Hq). exists k'', q. split; [|rewrite Hq, <- app_assoc; reflexivity].
+          rewrite Forall_forall in Hlt. apply Hlt. apply in_map_iff. exists (k'', s). auto. }
+        assert (Hsub_k : forall y, In y (strie_emit sub) -> exists q, fst y = pre ++ k' :: q).
+        { intros y Hy. destruct (emit_prefix sub _ (Hsub k' sub (or_introl eq_refl)) y Hy) as (q & Hq). exists q. rewrite Hq, <- app_assoc. reflexivity. }
+        cbn [go]. fold go. cbn [flat_map snd]. destruct (Nat.eqb_spec k' k) as [->|Hne].
+        + (* the same key: into the sub-trie *)
+          destruct (IH (pre ++ [k]) sub n (Hsub k sub (or_introl eq_refl))) as [He Hwf]; [rewrite Hn, <- app_assoc; reflexivity|].
+          cbn [flat_map snd map fst]. rewrite He. repeat split.
+          * symmetry. apply insert_app_gt. intros y Hy. destruct (Hr_gt y Hy) as (k'' & q & Hk & Hq). eapply lt_keys; eauto.
+          * constructor; assumption.
+          * intros k'' s [E|Hin]; [inversion E; subst; exact Hwf|auto].
+          * intros lo Hf _. exact Hf.
+        + destruct (Nat.ltb_spec k k') as [Hlt'|Hge].
+          * (* a new sub-trie before this one *)
+            cbn [flat_map snd map fst]. rewrite emit_add_empty. repeat split.
+            -- symmetry. cbn [app]. apply insert_lt_all. intros y Hy. apply in_app_or in Hy as [Hy|Hy].
+               ++ destruct (Hsub_k y Hy) as (q & Hq). eapply lt_keys; eauto.
+               ++ destruct (Hr_gt y Hy) as (k'' & q & Hk & Hq). eapply lt_keys; eauto. lia.
+            -- constructor; [constructor; assumption|]. constructor; [exact Hlt'|].
+               eapply Forall_impl; [|exact Hlt]. intros; lia.
+            -- intros k'' s [E|Hin]; [inversion E; subst; apply twf_add_empty; rewrite Hn, <- app_assoc; reflexivity|apply Hsub; exact Hin].
+            -- intros lo Hf Hlo. constructor; [exact Hlo|exact Hf].
+          * (* later *)
+            assert (Hk'k : k' < k) by lia.
+            destruct (IHr Hs' Hsub') as (He & Hsr & Hwr & Hlo).
+            cbn [flat_map snd map fst]. rewrite He. repeat split.
+            -- symmetry. apply insert_app_lt. intros y Hy. destruct (Hsub_k y Hy) as (q & Hq). eapply lt_keys; eauto.
+            -- constructor; [exact Hsr|]. apply Hlo; assumption.
+            -- intros k'' s [E|Hin]; [inversion E; subst; apply Hsub; left; reflexivity|auto].
+            -- intros lo Hf Hlo'. cbn [map fst] in Hf. inversion Hf; subst. constructor; [assumption|]. apply Hlo; assumption. }
+    destruct (Hgo items Hs Hsub) as (He & Hs2 & Hw2 & _). split.
+    + cbn [strie_emit]. rewrite He. destruct x as [n0|]; [|reflexivity]. cbn [app].
+      assert (Hlt0 : path_ltb (fst n0) (fst n) = true) by (eapply lt_prefix; [exact (Hx n0 eq_refl)|exact Hn]).
+      destruct (path_ltb_asym _ _ Hlt0) as [H1 H2]. cbn [insert_sorted].
+      match goal with |- context [if path_ltb ?a ?b then _ else _] =>
+        replace (path_ltb a b) with false by (symmetry; exact H1); replace (path_eqb a b) with false by (symmetry; exact H2) end.
+      reflexivity.
+    + constructor; assumption.
+Qed.
+
+Lemma fold_trie_is_insertion : forall l t acc, twf [] t -> strie_emit t = acc ->
+  strie_emit (fold_left (fun t x => strie_add (fst x) x t) l t) = fold_left (fun a x => insert_sorted x a) l acc.
+Proof.
+  induction l as [|x l IH]; intros t acc Hw He; [exact He|]. cbn [fold_left].
+  destruct (add_emit (fst x) [] t x Hw eq_refl) as [E W]. apply IH; [exact W|]. rewrite E, He. reflexivity.
+Qed.
+(* the trie sorter is insertion into a list kept sorted by position *)
+Lemma in_document_order_is_insertion l :
+  in_document_order l = if forallb is_tagnode l then Ok (fold_left (fun a x => insert_sorted x a) l []) else Crash NotImplementedError.
+Proof.
+  unfold in_document_order. destruct (forallb is_tagnode l); [|reflexivity]. f_equal.
+  apply fold_trie_is_insertion; [|reflexivity]. constructor; [discriminate|constructor|intros ? ? []].
+Qed.
+
 (* in_document_order: refuses anything but tag nodes (NotImplementedError); otherwise the same positions, strictly
    increasing in document order *)
 Lemma in_document_order_sorted l r : in_document_order l = Ok r ->
   forallb is_tagnode l = true /\ sorted r = true /\ (forall p, In p (map fst r) <-> In p (map fst l)).
 Proof.
-  unfold in_document_order. destruct (forallb is_tagnode l) eqn:E; [|discriminate]. intro H. inversion H; subst.
+  rewrite in_document_order_is_insertion. destruct (forallb is_tagnode l) eqn:E; [|discriminate]. intro H. inversion H; subst.
   destruct (fold_insert_sorted l [] eq_refl) as [S P]. split; [reflexivity|]. split; [exact S|].
   intro p. rewrite P. cbn. intuition.
 Qed.
 Lemma in_document_order_refuses l : forallb is_tagnode l = false -> in_document_order l = Crash NotImplementedError.
-Proof. unfold in_document_order. intros ->. reflexivity. Qed.
+Proof. rewrite in_document_order_is_insertion. intros ->. reflexivity. Qed.
